@@ -1,6 +1,7 @@
 """C17 - P2P wire framing under every fragmentation and single fault; payload codecs invert."""
 import itertools
 import sys
+import time
 
 from vf import edits
 from vf.explore import Explorer, Pruned, determinism_probe, dead_local_at_call
@@ -342,7 +343,7 @@ def chk_codec(case):
     return out
 
 
-CASES = {"schedule": chk_schedule, "codec": chk_codec}
+CASES = {"schedule": chk_schedule, "codec": chk_codec, "repeat": lambda case: chk_repeat(case)}
 
 
 def run_case(kind, case):
@@ -396,10 +397,45 @@ def jobs(tier, seed):
     return js
 
 
+def chk_repeat(case):
+    """the same receive(s) repeated in one process image, then a healthy probe stream on a fresh connection: every run is
+    judged against the reference - a library that keeps receive state outside the call fails here"""
+    stream = bytes.fromhex(case["stream"])
+    magic = bytes.fromhex(case["magic"])
+    probe = R.frame(magic, b"ping", bytes(8)) + R.frame(magic, b"verack", b"")
+    out = []
+    for n, (st, pol) in enumerate([(stream, "whole"), (stream, "bytewise"), (probe, "whole"), (stream, "whole"), (probe, "bytewise")]):
+        obs = drive(st, magic, policy=POLICIES[pol](0))
+        for key, desc in judge(st, magic, obs):
+            out.append((key + "/after-earlier-receives", f"run #{n} ({pol}) in the same process image: {desc}"))
+        if out:
+            break
+    return out
+
+
 def _explore_stream(acc, stream, magic, menu=None, bound=None, label=""):
+    from vf.explore import Divergence
+    try:
+        return _explore_stream_inner(acc, stream, magic, menu, bound, label)
+    except Divergence as e:
+        # replaying a recorded schedule gave a different execution.  The harness owns every input of recv_msg, so the only
+        # remaining variable is state the LIBRARY kept from earlier calls: look for a replayable witness.
+        case = {"stream": stream.hex(), "magic": magic.hex()}
+        v = chk_repeat(case)
+        if not v:
+            raise
+        for key, desc in v:
+            acc.violation("repeat", case, key, desc + f" [found because schedule replay diverged: {str(e)[:120]}]")
+        return None
+
+
+def _explore_stream_inner(acc, stream, magic, menu=None, bound=None, label=""):
     cap = 400_000 if TIER["tier"] == "quick" else 6_000_000
+    if time.time() > TIER["deadline"]:
+        acc.caps.append(f"{label or acc.job['name']}: job time budget exhausted before this stream was explored")
+        return None
     mk = lambda: Explorer(lambda ctx: drive(stream, magic, ctx, menu=_menu(menu)), bound=bound, cache=True,
-                          max_exec=cap)
+                          max_exec=cap, abort_on_prune=False, deadline=TIER["deadline"])
     determinism_probe(mk)
     ex = mk()
 
@@ -413,8 +449,8 @@ def _explore_stream(acc, stream, magic, menu=None, bound=None, label=""):
     ex.check = check
     ex.explore()
     if ex.capped:
-        acc.caps.append(f"{label or acc.job['name']}: stopped after {cap} executions (states stopped merging?) - "
-                        f"covered breadth-first up to depth {ex.max_depth}")
+        acc.caps.append(f"{label or acc.job['name']}: stopped after {ex.executions} executions (cap {cap} / job time budget; states "
+                        f"stopped merging?) - covered breadth-first up to depth {ex.max_depth}")
     acc.executions += ex.executions
     acc.evaluations += ex.executions
     acc.states += ex.states
@@ -423,7 +459,7 @@ def _explore_stream(acc, stream, magic, menu=None, bound=None, label=""):
     return ex
 
 
-TIER = {"tier": "quick"}
+TIER = {"tier": "quick", "deadline": float("inf")}
 
 
 def run_job(job):
@@ -432,6 +468,7 @@ def run_job(job):
         return run_seq_job(job, seq_ops(job), run_case)
     acc = Acc(job)
     TIER["tier"] = job["tier"]
+    TIER["deadline"] = time.time() + (120 if job["tier"] == "quick" else 3600)     # per-job wall budget (reported as a cap)
     seed = job["seed"]
     magic = MAGIC["mainnet"]
     A = alphabet(seed)
